@@ -21,7 +21,8 @@ def bounded(tier):
     from metapype.model.node import Node
     b = Bounded("all ordered tree shapes with <= %d nodes; pairs (t, t') with t' an independently built copy of t "
                 "changed in exactly one field of exactly one node (8 fields), or with one leaf added/removed; both argument "
-                "orders; compared with an independent structural-equality oracle" % (4 if tier == "quick" else 5))
+                "orders, with private namespace maps and with maps shared between parent and child; "
+                "compared with an independent structural-equality oracle" % (4 if tier == "quick" else 5))
     b.rule = "a case is a (shape, node position, mutated field, argument order) tuple; non-trivial = the trees differ or have >1 node"
     maxn = 4 if tier == "quick" else 5
     fields = ["name", "content", "tail", "prefix", "attributes", "nsmap", "extras", "attr-key"]
@@ -67,8 +68,17 @@ def bounded(tier):
                 nat.node_at(extra, p).children.append(leaf)
                 leaf.parent = nat.node_at(extra, p)
                 cases.append(("extra-child", p, extra))
+            # the same tree with the aliasing add_child / from_xml produce: a node whose map equals its parent's holds the parent's object
+            a_shared = nat.build(shape, base)
+
+            def share(n):
+                for c in n.children:
+                    if c.nsmap == n.nsmap:
+                        c.nsmap = n.nsmap
+                    share(c)
+            share(a_shared)
             for (what, p, other) in cases:
-                for x, y, order in ((a, other, "ab"), (other, a, "ba")):
+                for x, y, order in ((a, other, "ab"), (other, a, "ba"), (a_shared, other, "ab/shared-maps"), (other, a_shared, "ba/shared-maps")):
                     exp = nat.spec_equal(x, y)
                     try:
                         got = Node.is_equal(x, y)
@@ -90,6 +100,6 @@ def main(tier, seed):
     results = common.run_tasks(specs)
     b = bounded(tier)
     return common.decide(PID, tier, seed, results, b, t0, "DESIGN.md §4 C18",
-                         extra_assumptions=["L-card: finite-cardinality lemma for insertion-ordered dicts (axiom instances; Lean proof in lemmas/)",
+                         extra_assumptions=["L-card: finite-cardinality lemma for insertion-ordered dicts (axiom instances; not proved)",
                                             "precondition PD: positionally corresponding nodes of the two trees are distinct objects "
                                             "(implied by 'two distinct trees'; comparing a tree with itself is outside the property)"])
